@@ -782,6 +782,23 @@ class Plan:
                 cases = [self.new_case(r, vs, cfg, script, f"allreprs:{lab}") for lab, cfg in ks[:3]]
                 self.add_group("C09", cases, "shapes")
 
+    # -- B1e: enums with holes whose variant count times repr size passes 2^16 (a size computed in a narrow type), under
+    # configurations that enable next to nothing: iter alone (auto), iter + names
+    def huge_sparse_cfgs(self):
+        rng = random.Random("huge")
+        for r, n in (("i128", 4200), ("u64", 8300)):
+            reals = list(range(-2000, -2000 + n // 2)) + list(range(n, n + n // 2 - 5)) + [3 * n + 1, 3 * n + 2, 3 * n + 3, 3 * n + 4, 3 * n + 5] if prim.signed(r) \
+                else list(range(10, 10 + n // 2)) + list(range(n, n + n // 2 - 5)) + [3 * n + 1, 3 * n + 2, 3 * n + 3, 3 * n + 4, 3 * n + 5]
+            vs = decorate(reals, r, rng, "ident", "asc", "dec")
+            p = prim.Proj(r)
+            pr = sorted({p.model_tmin(), p.model_tmax()} | {p.to_model(x + d) for x in (reals[0], reals[-1], reals[n // 2 - 1], reals[n // 2]) for d in (-1, 0, 1)})
+            bysort = sorted(vs, key=lambda v: v["real"])
+            sub = bysort[:3] + bysort[-3:] + bysort[n // 2 - 2:n // 2 + 2]
+            script = make_script_large(vs, sub, r, pr, rng)
+            cfgs = [("iter", {"feats": [("iter", {})], "split": "one"}), ("iter+names", {"feats": [("iter", {}), ("names", {})], "split": "one"}),
+                    ("next+try_from", {"feats": [("next", {}), ("next_back", {}), ("try_from", {}), ("MIN", {}), ("MAX", {})], "split": "one"})]
+            self.add_group("C09", [self.new_case(r, vs, cfg, script, f"huge{n}:{lab}") for lab, cfg in cfgs], "large")
+
     # -- B2: sorted(name) / sorted(value) must not change behaviour either (C09)
     def sorted_cfgs(self, n_decls):
         rng = self.rng
@@ -1248,6 +1265,7 @@ def build_plan(tier, seed):
         pl.pairwise(250)
         pl.many_enums(530)
         pl.all_reprs()
+        pl.huge_sparse_cfgs()
         pl.raw_idents()
         pl.alias_shapes()
         pl.perms_reprs(30)
@@ -1280,6 +1298,7 @@ def build_plan(tier, seed):
         pl.pairwise(1 << 30)
         pl.many_enums(1100)
         pl.all_reprs()
+        pl.huge_sparse_cfgs()
         pl.raw_idents()
         pl.alias_shapes()
         pl.perms_reprs(150)
